@@ -328,8 +328,10 @@ def decide(prop, mod, a, seed, procs, binfo, t0, workdir, native):
     # required monitor evaluations
     req = getattr(mod, "REQUIRED", {})
     req = req.get(a.tier, req) if req and isinstance(next(iter(req.values())), dict) else req
+    rounds = getattr(mod, "THOROUGH_ROUNDS", 1) if a.tier == "thorough" else 1
     if not a.replay:
         for m, n in req.items():
+            n = n * rounds
             have = counts.get(m, {}).get("ok", 0) + counts.get(m, {}).get("violation", 0)
             if have < n:
                 inconclusive.append("monitor %s evaluated %d < %d times" % (m, have, n))
@@ -378,6 +380,7 @@ def decide(prop, mod, a, seed, procs, binfo, t0, workdir, native):
             "trusted_base": getattr(mod, "TRUSTED", []),
             "verdict": status,
             "cases_run": ran,
+            "generator_rounds": rounds,
             "monitor_counts": my_counts,
             "family_counts": fam_counts,
             "wrapped_calls_observed": calls,
